@@ -20,6 +20,18 @@ type BarSeq struct {
 	ID    int       `json:"id"`
 	Total int64     `json:"total"`
 	Ops   []BarCall `json:"ops"`
+	// every total and argument of the walk is multiplied by Scale (0 = 1) and the observed counters are divided by it:
+	// the rules of BarRules.tla are homogeneous (only comparisons and sums), and Apalache checks them for every integer
+	Scale int64 `json:"scale,omitempty"`
+}
+
+// unscale maps an observed counter back to the walk's numbers; a value that is not a multiple of the scale is not a
+// value of the scaled walk at all and is reported as it is (it then matches no state of the specification)
+func unscale(v, k int64) int64 {
+	if k <= 1 || v%k != 0 {
+		return v
+	}
+	return v / k
 }
 
 type BarCall struct {
@@ -40,7 +52,15 @@ func b2i(b bool) int64 {
 	return 0
 }
 
-func runBarSeq(s *BarSeq) BarObs {
+func runBarSeq(s0 *BarSeq) BarObs {
+	sk := s0.Scale
+	if sk < 1 {
+		sk = 1
+	}
+	s := &BarSeq{ID: s0.ID, Total: s0.Total * sk, Scale: sk}
+	for _, c := range s0.Ops {
+		s.Ops = append(s.Ops, BarCall{Op: c.Op, A: c.A * sk, F: c.F})
+	}
 	ctx, cancel := context.WithCancel(context.Background())
 	defer cancel()
 	// refreshes happen only on request: after a SetRefill on a live bar one frame is drawn and the
@@ -100,7 +120,7 @@ func runBarSeq(s *BarSeq) BarObs {
 				case refresh <- time.Now():
 					select {
 					case st := <-seen:
-						refill = st.Refill
+						refill = unscale(st.Refill, sk)
 					case <-time.After(2 * time.Second):
 					}
 				case <-time.After(2 * time.Second):
@@ -118,7 +138,7 @@ func runBarSeq(s *BarSeq) BarObs {
 			cancel()
 			cancelled = true
 		}
-		out.Obs = append(out.Obs, [4]int64{bar.Current(), b2i(bar.Completed()), b2i(bar.Aborted()), refill})
+		out.Obs = append(out.Obs, [4]int64{unscale(bar.Current(), sk), b2i(bar.Completed()), b2i(bar.Aborted()), refill})
 	}
 	cancel()
 	p.Wait()
